@@ -174,6 +174,8 @@ const (
 	viaEntry         // yangentry.Parse(<paths>, [dir])
 )
 
+const corpusDir = "/verif/corpus/C16/sem"
+
 var modeName = []string{"Modules.Parse", "Modules.Read(path)", "AddPath + Read(name) of roots + auto-loading", "yangentry.Parse"}
 
 func run(c tcase) (verdict, string) { return runMode(c, inMemory, nil, 0) }
@@ -1352,6 +1354,7 @@ func main() {
 	classes := map[string]int64{}
 	var unfaulted, unfaultedErr, named int64
 	namedPerKind := map[string]int64{}
+	namedPctPerKind := map[string]int64{}
 	namedBad := 0
 	type pending struct {
 		c tcase
@@ -1360,6 +1363,49 @@ func main() {
 	var pend []pending
 	var reqs []string
 	period := len(fs) + 1
+	// corpus witnesses (corpus/C16/sem): one hand-written single-fault module per error-construction
+	// layer, under its plain name and under every shape of source name; the first four (entry.go
+	// newError, types.go) also as files on disk below directories of every shape
+	var nWitness int64
+	ws := witnesses(corpusDir)
+	for wi, w := range ws {
+		v0, crash := run(w)
+		nWitness++
+		why := ""
+		if crash != "" {
+			why = "goyang panicked: " + crash
+		} else if why = judge(w, v0); why == "" && len(v0.Expected) == 0 {
+			why = "the witness has no statement " + w.Key
+		}
+		if why != "" {
+			res.AddDisagreement(lib.Disagreement{Kind: "spec", Input: w, Go: v0.Raw, SpecVerdict: "violates", What: w.Fault + ": " + why, Replay: w})
+			continue
+		}
+		for k := range shapes {
+			if namedBad >= 50 {
+				break
+			}
+			wg := w
+			wg.Naming = witnessNaming(k, w.Names)
+			vg, gcrash := run(wg)
+			nWitness++
+			why := namedWhy(w, v0, wg, vg, gcrash)
+			if why == "" && wi < 4 && !shapes[k].Colon {
+				why = fileModes(f.Rand(1<<25+k), wg, vg, func(string) {})
+				if why != "" {
+					why = "files on disk below " + fmt.Sprintf("%q / %q", wg.Naming.Root, wg.Naming.Dirs) + ": " + why
+				}
+			}
+			if why != "" {
+				namedBad++
+				res.AddDisagreement(lib.Disagreement{Kind: "spec", Input: wg, Go: vg.Raw, SpecVerdict: "violates",
+					What: "source names (" + wg.Naming.Label + "; given " + fmt.Sprintf("%q", wg.Naming.Given) + "): " + why, Replay: wg})
+			}
+		}
+	}
+	res.Distribution["corpus_witnesses"] = int64(len(ws))
+	res.Distribution["corpus_witness_runs"] = nWitness
+	namedBad = 0
 	for i := 0; i < n; i++ {
 		r := f.Rand(i)
 		set := gen.Generate(r, cfg)
@@ -1406,16 +1452,19 @@ func main() {
 			}
 		}
 		// the same set under source names with characters special to some layer (names.go): for a
-		// given fault kind the shapes rotate (step 3), so every kind meets the fmt verbs early
+		// given fault kind the shapes rotate (step 5), so every kind meets the fmt verbs early
 		if namedBad < 50 {
 			rn := f.Rand(1<<24 + i)
 			cg := *c
-			cg.Naming = mkNaming(rn, (i/period)*3+kind, c.Names)
+			cg.Naming = mkNaming(rn, (i/period)*5+kind, c.Names)
 			vg, gcrash := run(cg)
 			res.Count("named: "+namingKey(cg.Naming), 1)
 			named++
 			if c.Fault != "" {
 				namedPerKind[c.Fault]++
+				if strings.Contains(strings.Join(cg.Naming.Given, " "), "%") {
+					namedPctPerKind[c.Fault]++
+				}
 			}
 			if why := namedWhy(*c, v, cg, vg, gcrash); why != "" {
 				namedBad++
@@ -1492,9 +1541,9 @@ func main() {
 		res.Distribution["model_compared_sets_with_errors"] = withErrs
 		res.Distribution["model_compared_positioned_error_records"] = positioned
 	}
-	res.Evaluations = int64(n)
+	res.Evaluations = int64(n) + nWitness
 	res.DistinctNontrivial = distinct.Len()
-	res.Rule = fmt.Sprintf("valid generated module sets (harness/gen, fault rate 0) with exactly one injected semantic fault of %d kinds (one or more per positioned error class: AST builder, entry layer, type layer incl. unknown type / prefix with local, own-prefixed, foreign-prefixed and undeclared-prefixed names in leaf, leaf-list, typedef, union member, typedef used by a leaf and deviate type, identity layer, deviation stage); the faulty statement is addressed by a unique marker, its true position comes from the generic parser, an error of the expected class must stand exactly there and none elsewhere; every set is processed a second time under source names with characters special to some layer (%d shapes, rotating per fault kind: fmt verbs %%20 %%2F %%s %%d %%v %%%% %%[1]s %%*d and a trailing lone %% in directories and in the base name, blanks, @ # + & ; | * ? ~ $, quotes, brackets, backslash, non-ASCII, names of 600-3000 bytes, a labelled family with `:`; Modules.Parse under the given name, and for one set in six Modules.Read(path) / search path / yangentry.Parse below directories of such names): the file part of every position (leading, wrapped, mentioned, Location()) must be the given name byte for byte, and the marker oracle, the error records and the mentioned positions must be those of the plain-named run; distinct_nontrivial = distinct faulted sets", len(fs), len(shapes))
+	res.Rule = fmt.Sprintf("valid generated module sets (harness/gen, fault rate 0) with exactly one injected semantic fault of %d kinds (one or more per positioned error class: AST builder, entry layer, type layer incl. unknown type / prefix with local, own-prefixed, foreign-prefixed and undeclared-prefixed names in leaf, leaf-list, typedef, union member, typedef used by a leaf and deviate type, identity layer, deviation stage); the faulty statement is addressed by a unique marker, its true position comes from the generic parser, an error of the expected class must stand exactly there and none elsewhere; every set is processed a second time under source names with characters special to some layer (%d shapes, rotating per fault kind: fmt verbs %%20 %%2F %%s %%d %%v %%%% %%[1]s %%*d and a trailing lone %% in directories and in the base name, blanks, @ # + & ; | * ? ~ $, quotes, brackets, backslash, non-ASCII, names of 600-3000 bytes, a labelled family with `:`; Modules.Parse under the given name, and for one set in six Modules.Read(path) / search path / yangentry.Parse below directories of such names): the file part of every position (leading, wrapped, mentioned, Location()) must be the given name byte for byte, and the marker oracle, the error records and the mentioned positions must be those of the plain-named run; before all that the hand-written single-fault modules of corpus/C16/sem under their plain name and under every shape; distinct_nontrivial = distinct faulted sets", len(fs), len(shapes))
 	for k, v := range perKind {
 		res.Distribution["fault:"+k] = v
 	}
@@ -1504,13 +1553,17 @@ func main() {
 	res.Distribution["fault_kinds"] = int64(len(fs))
 	res.Distribution["named_sets"] = named
 	res.Distribution["named_shapes"] = int64(len(shapes))
-	minNamed := int64(-1)
+	minNamed, minPct := int64(-1), int64(-1)
 	for k := range perKind {
 		if n := namedPerKind[k]; minNamed < 0 || n < minNamed {
 			minNamed = n
 		}
+		if n := namedPctPerKind[k]; minPct < 0 || n < minPct {
+			minPct = n
+		}
 	}
 	res.Distribution["named_sets_per_fault_kind_min"] = minNamed
+	res.Distribution["named_sets_with_a_percent_sign_per_fault_kind_min"] = minPct
 	res.Distribution["unfaulted_sets"] = unfaulted
 	res.Distribution["unfaulted_sets_with_errors"] = unfaultedErr
 	res.Write(f.Out)
